@@ -69,6 +69,8 @@ where
     B: Send + 'static,
 {
     fn close(&mut self) {
+        #[cfg(feature = "verif-hooks")]
+        crate::verif_hooks::yield_point("waiter close");
         match self {
             Waiting::Idle(rx) => {
                 rx.close();
@@ -115,6 +117,8 @@ where
     type Output = WaitingPoll<C, B>;
 
     fn poll(mut self: Pin<&mut Self>, cx: &mut Context<'_>) -> Poll<Self::Output> {
+        #[cfg(feature = "verif-hooks")]
+        crate::verif_hooks::yield_point("waiter poll");
         let polled = match self.as_mut().project() {
             WaitingProjected::Idle(rx) => match rx.poll(cx) {
                 Poll::Ready(Ok(connection)) => Poll::Ready(WaitingPoll::Connected(connection)),
@@ -570,6 +574,8 @@ where
                 pool.cancel_connection(self.token);
             }
         }
+        #[cfg(feature = "verif-hooks")]
+        crate::verif_hooks::yield_point("checkout fields dropped");
     }
 }
 
